@@ -1,4 +1,6 @@
 SPECIFICATION Spec
-CONSTANT CheckGenerator = TRUE
+CONSTANTS
+  CheckGenerator = TRUE
+  CheckRepr = FALSE
 POSTCONDITION Accepted
 CHECK_DEADLOCK FALSE
